@@ -357,6 +357,12 @@ func c18Prop(c *sim.Case) {
 				c.Violation("login-failed", "login through filter %s failed: %s", B.name, w.why)
 			}
 			createdBy[sidB] = B
+			if sim.Bool(c, "other-filter-logs-in-meanwhile") {
+				// the most recent code exchange in the process is another filter's when B's refresh goes out
+				if sidX := w.login(A, "frank"); sidX != "" {
+					createdBy[sidX] = A
+				}
+			}
 			from := B.idp.LedgerLen()
 			fromA := A.idp.LedgerLen()
 			time.Sleep(2100 * time.Millisecond)
